@@ -259,3 +259,88 @@ Qed.
 Lemma retry_same_schedule :
   voutcome_of (vrun Z.of_nat true (init_vsys 2) (no_retry_sched ++ [EStep 1; EStep 1; EFlightIssue; EFlightFinish; EStep 1])) 1 = Some OAccept.
 Proof. vm_compute. reflexivity. Qed.
+
+(* ------------------------------------------------------------------ cancellation is isolated:
+   the flight's fetch is independent of every caller's context, so a cancel step of one validator
+   fails that validator only.  OErr (a failed validation) can reach validator u only through a PD
+   failure of a flight (EFlightFail) or through its own cancellation (ECancel u). *)
+Section Cancel.
+Variable pd : nat -> Z.
+Variable u : nat.
+
+Definition quiet (e : vevent) : Prop := e <> EFlightFail /\ e <> ECancel u.
+
+Definition CInv (s : vsys) : Prop :=
+  (forall t th, nth_error (vthr s) t = Some th -> vp th <> VGot None) /\
+  (forall th, nth_error (vthr s) u = Some th -> vp th <> VDone OErr).
+
+Lemma pre_outcome_not_err : forall read stale, pre_outcome read stale <> Some OErr.
+Proof. intros read stale. unfold pre_outcome. destruct (validate_pre read stale) as [[]|]; discriminate. Qed.
+
+Lemma cinv_put : forall s t th',
+  CInv s -> vp th' <> VGot None -> (t = u -> vp th' <> VDone OErr) -> CInv (vput s t th').
+Proof.
+  intros s t th' [A B] H1 H2. split; cbn [vput vthr].
+  - intros x thx Hx. rewrite nth_error_set_nth in Hx. destruct (Nat.eqb t x).
+    + destruct (nth_error (vthr s) t); cbn in Hx; inversion Hx; subst; exact H1.
+    + eauto.
+  - intros thx Hx. rewrite nth_error_set_nth in Hx. destruct (Nat.eqb t u) eqn:E.
+    + apply Nat.eqb_eq in E. destruct (nth_error (vthr s) t); cbn in Hx; inversion Hx; subst; auto.
+    + eauto.
+Qed.
+
+Lemma deliver_vp : forall f v th0,
+  vp (deliver f (Some v) th0) = vp th0 \/ vp (deliver f (Some v) th0) = VGot (Some v).
+Proof.
+  intros f v th0. unfold deliver. destruct (vp th0) eqn:Hp; auto.
+  destruct (Nat.eqb f0 f); cbn; auto.
+Qed.
+
+Lemma cinv_deliver : forall s f v k l fl c,
+  CInv s -> CInv (mkVS k l fl c (map (deliver f (Some v)) (vthr s))).
+Proof.
+  intros s f v k l fl c [A B]. split; cbn [vthr].
+  - intros t th H. rewrite nth_error_map in H. destruct (nth_error (vthr s) t) as [th0|] eqn:Ht; cbn in H; [|discriminate].
+    inversion H; subst th. destruct (deliver_vp f v th0) as [E|E]; rewrite E; [eapply A; eauto|discriminate].
+  - intros th H. rewrite nth_error_map in H. destruct (nth_error (vthr s) u) as [th0|] eqn:Ht; cbn in H; [|discriminate].
+    inversion H; subst th. destruct (deliver_vp f v th0) as [E|E]; rewrite E; [eapply B; eauto|discriminate].
+Qed.
+
+Lemma cinv_step : forall r s e, quiet e -> CInv s -> CInv (vstep pd r s e).
+Proof.
+  intros r s e [Q1 Q2] I. pose proof I as [A B].
+  destruct e as [t read stale|t|t| |i| | |]; cbn [vstep]; try congruence.
+  - destruct (nth_error (vthr s) t) as [th|] eqn:Ht; [|exact I]. destruct (vp th); try exact I.
+    destruct (pre_outcome read stale) as [o|] eqn:Hpre; apply cinv_put; cbn; auto; try discriminate.
+    intros _ E. inversion E; subst. exact (pre_outcome_not_err _ _ Hpre).
+  - destruct (nth_error (vthr s) t) as [th|] eqn:Ht; [|exact I]. unfold vthread_step.
+    destruct (vp th) eqn:Hp; try exact I.
+    + destruct (match vlast s with Some l => vread th <=? l | None => false end); apply cinv_put; cbn; auto; discriminate.
+    + destruct (flight s).
+      * apply cinv_put; cbn; auto; discriminate.
+      * destruct (cinv_put s t (vwith th (VWait (fcount s))) I) as [X Y]; cbn; try discriminate.
+        split; cbn [vthr]; [exact X|exact Y].
+    + destruct r0 as [cur|]; [|destruct (A t th Ht Hp)].
+      destruct (cur <? vread th); [destruct (r && negb (vretry th))|]; apply cinv_put; cbn; auto; discriminate.
+  - destruct (nth_error (vthr s) t) as [th|] eqn:Ht; [|exact I].
+    assert (t <> u) by congruence.
+    destruct (vp th); try exact I; apply cinv_put; cbn; auto; try discriminate; intros; contradiction.
+  - exact I.
+  - destruct ((i <? vk s)%nat && match vlast s with Some l => l <=? pd i | None => true end); exact I.
+  - destruct (flight s) as [f|]; [|exact I]. destruct (fts f); exact I.
+  - destruct (flight s) as [f|]; [|exact I]. destruct (fts f) as [i|]; [|exact I]. apply cinv_deliver; exact I.
+Qed.
+
+Lemma cancel_isolated : forall r n es,
+  Forall quiet es -> voutcome_of (vrun pd r (init_vsys n) es) u <> Some OErr.
+Proof.
+  intros r n es Hq.
+  assert (I : CInv (vrun pd r (init_vsys n) es)).
+  { assert (I0 : CInv (init_vsys n)).
+    { split; cbn; intros; apply nth_error_In, repeat_spec in H; subst; cbn; discriminate. }
+    revert I0. generalize (init_vsys n). induction Hq as [|e es He _ IH]; intros s I0; cbn; auto.
+    apply IH, cinv_step; auto. }
+  destruct I as [_ B]. unfold voutcome_of. destruct (nth_error (vthr _) u) as [th|] eqn:Ht; [|discriminate].
+  specialize (B th eq_refl). destruct (vp th); try discriminate. congruence.
+Qed.
+End Cancel.
